@@ -264,6 +264,10 @@ Proof. intros B. unfold start_create. gob. Qed.
 Lemma bok_do_mcudone h tok ok : BusOK h -> resb (do_mcudone h tok ok).
 Proof. intros B. unfold do_mcudone. gob. Qed.
 
+Lemma bok_do_sendoffer h c sid s i stream : BusOK h -> resb (do_sendoffer h c sid s i stream).
+Proof. intros B. unfold do_sendoffer. gob. Qed.
+#[export] Hint Resolve bok_do_sendoffer : bokdb.
+
 Lemma bok_do_media h c sid s to mk stream media : BusOK h -> resb (do_media h c sid s to mk stream media).
 Proof. intros B. unfold do_media. gob. Qed.
 
